@@ -514,9 +514,10 @@ def expand(task):
                 v = None
                 if cfg.get("judge_outcome", True) and (ri == "ok") != (rm == "ok"):
                     v = _viol("outcome", cfg, driver, hist, op, f"container op {ri}, reference {rm}", {"impl": ri.split(":")[0], "model": rm})
-                if v is None:
+                clean_fail = ri != "ok" and cfg.get("skip_checks_on_clean_fail") and raw_canon(cont) == base_key
+                if v is None and not clean_fail:
                     try:
-                        with env.watchdog(60):
+                        with env.watchdog(120):
                             v = run_checks(cont, model, cfg, hist, op, status)
                     except env.StepTimeout:
                         v = _viol("check-nonterm", cfg, driver, hist, op, "reading the container did not terminate")
